@@ -44,7 +44,7 @@ import (
 func init() {
 	Register(&Rule{ID: "R-ORD-2", Props: []string{"C12", "C05"}, Floor: 3,
 		Doc:      "a map-ordered loop that hands its iteration VALUE to a self-keyed writer (one that derives the container key from the stored object: ViewMap.Set, SetTemporaryTable, ReplaceTemporaryTable and helpers built on them — computed, not listed) ranges over a map whose every entry m[k] = v ties k to v's container key: v is the result of a keyed load whose key argument is k up to wrapping, or k is computed from v through the fields the writer's key expression reads; otherwise two entries can land in one slot and map order decides which one survives",
-		Controls: []string{"CtlOrd2PublishByAlias", "CtlOrd2KeyFromOtherField", "CtlOrd2VisitedByName", "CtlOrd2HelperReturnsOtherKey", "CtlOrd2HelperPairMixedUp"},
+		Controls: []string{"CtlOrd2PublishByAlias", "CtlOrd2KeyFromOtherField", "CtlOrd2VisitedByName", "CtlOrd2HelperReturnsOtherKey", "CtlOrd2HelperPairMixedUp", "CtlOrd2StructKeyReassigned"},
 		Run:      ruleOrd2})
 }
 
@@ -1071,6 +1071,12 @@ func ord2Wraps(x, y ssa.Value, seen map[ssa.Value]bool) bool {
 		}
 		switch al := v.X.(type) {
 		case *ssa.Alloc:
+			// two reads of one local variable that is assigned once, before both
+			// (a struct-typed key such as `fpath, err := scope.AliasTarget(…)` stays
+			// a stack cell because its fields are selected: every use is a load)
+			if yl, ok := y.(*ssa.UnOp); ok && yl.Op == token.MUL && yl.X == al && ord2AssignedOnceBefore(al, v, yl) {
+				return true
+			}
 			// a local: whole stores, or a struct literal filled field by field
 			found := false
 			for _, r := range *al.Referrers() {
@@ -1108,6 +1114,49 @@ func ord2Wraps(x, y ssa.Value, seen map[ssa.Value]bool) bool {
 		}
 	}
 	return false
+}
+
+// ord2AssignedOnceBefore: the local cell al is written by exactly one whole
+// store, which dominates both loads; apart from that it is only read (loads,
+// field selections that are themselves only loaded). The two loads then yield
+// the same value.
+func ord2AssignedOnceBefore(al *ssa.Alloc, a, b *ssa.UnOp) bool {
+	if al.Referrers() == nil {
+		return false
+	}
+	var def *ssa.Store
+	for _, r := range *al.Referrers() {
+		switch x := r.(type) {
+		case *ssa.DebugRef:
+		case *ssa.UnOp:
+			if x.Op != token.MUL {
+				return false
+			}
+		case *ssa.Store:
+			if x.Addr != al || def != nil {
+				return false // the address is stored somewhere, or a second assignment
+			}
+			def = x
+		case *ssa.FieldAddr:
+			if x.Referrers() == nil {
+				continue
+			}
+			for _, rr := range *x.Referrers() {
+				switch y := rr.(type) {
+				case *ssa.DebugRef:
+				case *ssa.UnOp:
+					if y.Op != token.MUL {
+						return false
+					}
+				default:
+					return false // a field is assigned or its address handed on
+				}
+			}
+		default:
+			return false // captured, address taken, passed to a call
+		}
+	}
+	return def != nil && core.Dominates(def, a) && core.Dominates(def, b)
 }
 
 // ord2KeyAtoms: v is computed from one of the roots through field selections,
